@@ -3,9 +3,9 @@ CONSTANTS
   MaxV = 2
   MaxTurnout = 3
   PevChoices <- Pev_quick
-  AllowZeroFinal = TRUE
   Export = FALSE
   IntTruncation = FALSE
+  MonotoneOnRescaled = TRUE
   MaxDist = 5
 INVARIANT AllMissing
 CHECK_DEADLOCK FALSE
